@@ -104,6 +104,80 @@ def jit_attribute_checks(chk):
                            '(a trace made for one configuration was reused for another)', {})
 
 
+def lifted_constructor_and_filter_probes(chk):
+  """(1) a lifted *partially applied* constructor builds what the partial builds; (2) nn.cond and nn.switch given the same
+  `variables` filter treat a branch's write to a collection outside it alike (it is rejected)."""
+  import functools
+  import jax
+  import jax.numpy as jnp
+  import flax.linen as nn
+  from flax import errors
+
+  class Affine(nn.Module):
+    scale: float = 1.0
+    features: int = 2
+    shift: float = 0.0
+
+    @nn.compact
+    def __call__(self, x):
+      w = self.param('w', lambda k: jnp.ones((self.features,)))
+      return x * w * self.scale + self.shift
+  x = jnp.ones((4,))
+  partials = {'positional': functools.partial(Affine, 3.0, 4), 'positional+keyword': functools.partial(Affine, 3.0, features=4, shift=0.5),
+              'keyword': functools.partial(Affine, features=4, scale=3.0)}
+  lifts = {'remat': nn.remat, 'jit': nn.jit, 'map_variables': lambda c: nn.map_variables(c, 'unused', lambda v: v), 'checkpoint': nn.checkpoint}
+  for pname, part in partials.items():
+    want = part().apply({'params': {'w': jnp.ones((4,))}}, x)
+    for lname, lift in lifts.items():
+      key = f'C05:lifted-partial-constructor:{lname}:{pname}'
+      chk.count(key)
+      try:
+        got = lift(part)().apply({'params': {'w': jnp.ones((4,))}}, x)
+      except Exception as e:
+        chk.violation(key, f'raised {type(e).__name__}: {str(e)[:200]}', {})
+        continue
+      if got.shape != want.shape or not bool(jnp.all(got == want)):
+        chk.violation(key, f'nn.{lname}(functools.partial(Cls, ...))() computes {got.tolist()}, the partial itself {want.tolist()}', {})
+
+  class Branchy(nn.Module):
+    how: str
+    flt: object
+
+    @nn.compact
+    def __call__(self, x):
+      self.variable('state', 'n', lambda: jnp.zeros(()))
+      self.param('w', lambda k: jnp.ones(()))
+
+      def writes(mdl, a):
+        n = mdl.variable('state', 'n', lambda: jnp.zeros(()))
+        n.value = n.value + 1.0
+        return a * mdl.get_variable('params', 'w')
+
+      def reads(mdl, a):
+        return a * mdl.get_variable('params', 'w')
+      kw = {} if self.flt is None else {'variables': self.flt}
+      if self.how == 'cond':
+        return nn.cond(jnp.asarray(True), writes, reads, self, x, **kw)
+      return nn.switch(jnp.asarray(0), [writes, reads], self, x, **kw)
+  variables = Branchy('cond', None).init(jax.random.key(0), jnp.ones(()))
+  for fname, flt in (('default', None), ("'params'", 'params'), ("['params', 'state']", ['params', 'state'])):
+    outcome = {}
+    for how in ('cond', 'switch'):
+      try:
+        y, upd = Branchy(how, flt).apply(variables, jnp.ones(()), mutable=['state'])
+        outcome[how] = ('ok', float(upd['state']['n']))
+      except (errors.ModifyScopeVariableError, errors.ScopeVariableNotFoundError, errors.ScopeCollectionNotFound) as e:
+        outcome[how] = ('rejected',)
+      except Exception as e:
+        outcome[how] = ('raised', type(e).__name__)
+    key = f'C05:branch-write-vs-variables-filter:{fname}'
+    chk.count(key)
+    want = ('ok', float(variables['state']['n']) + 1.0) if fname != "'params'" else ('rejected',)
+    if outcome['cond'] != want or outcome['switch'] != want:
+      chk.violation(key, f'a branch that writes collection `state`, variables={fname}: nn.cond {outcome["cond"]}, nn.switch {outcome["switch"]}; expected {want} '
+                         'for both (a collection outside the lifted filter is not writable inside the branch)', {})
+
+
 def lift_cache_replay(chk):
   """LiftCache.tla: programs (sequences of instance configurations, applied twice) replayed on a real nn.jit / nn.remat class.
   Every call must return what the plain class returns for its own configuration; executions of the body are counted to compare the
@@ -393,6 +467,7 @@ def main(chk):
   chk.assumptions.append('remat policies are treated as inert; '
                          'observations inside lifted regions are returned as arrays (no side-effect logging)')
   jit_attribute_checks(chk)
+  lifted_constructor_and_filter_probes(chk)
   lift_cache_replay(chk)
   import linen_setup_check
   linen_setup_check.run(chk, 'C05')
